@@ -54,3 +54,44 @@ package signing
 //@   ensures [C02.message-echo] result == nil ==> ((round.temp.fullBytesLen == 0 ==> bytes(round.data.M) == be(val(round.temp.m))) && (round.temp.fullBytesLen != 0 ==> (len(round.data.M) == round.temp.fullBytesLen && bytes(round.data.M) == cat(zeros(round.temp.fullBytesLen - blen(be(val(round.temp.m)))), be(val(round.temp.m))))))
 //@   loop 0 invariant sumS != nil && (sumS == round.temp.si || fresh(sumS)) && round.started
 //@   loop 0 invariant sent(round.end) == old(sent(round.end))
+
+//@ func (*SignRound2Message).UnmarshalDeCommitment
+//@   props C06 C16
+//@   requires m != nil
+//@   ensures fresh(result) && (forall k in 0..len(result) :: (result[k] != nil && val(result[k]) >= 0)) && len(result) == len(m.DeCommitment)
+
+//@ func (*SignRound2Message).UnmarshalZKProof
+//@   props C06 C17
+//@   requires m != nil && !isnil(ec)
+//@   ensures result1 != nil ==> result0 == nil
+//@   ensures [C17.proof-commitment-is-on-the-curve] result1 == nil ==> (result0 != nil && fresh(result0) && result0.Alpha != nil && validPoint(result0.Alpha) && result0.Alpha.curve == ec && result0.T != nil && val(result0.T) >= 0)
+
+//@ func ecPointToEncodedBytes
+//@   props C02 C06
+//@   ensures result != nil && fresh(result)
+
+//@ func ecPointToExtendedElement
+//@   trusted conversion into the agl/ed25519 extended representation (struct values of int32 limbs); no value is specified
+//@   props C06
+//@   requires !isnil(ec) && x != nil && y != nil && rand != nil
+
+//@ func addExtendedElements
+//@   trusted group addition in the agl/ed25519 extended representation; no value is specified
+//@   props C06
+
+// round_3.go Start: every peer's de-committed nonce point is validated before it is used.
+//@ define r2slotEd(m) = (!isnil(m) && istype(msgcontent(m), "*eddsa/signing.SignRound2Message") && cast(msgcontent(m), "*eddsa/signing.SignRound2Message") != nil)
+//@ func (*round3).Start
+//@   props C06 C17 C05 C02
+//@   requires round != nil && round.round2 != nil && round.round2.round1 != nil && round.round2.round1.base != nil
+//@   requires wfParams(round.Parameters) && isedw(round.Parameters.ec) && wfIDs(round.Parameters.parties.partyIDs)
+//@   requires round.temp != nil && round.key != nil && round.out != nil && round.temp.ri != nil && round.temp.wi != nil && round.temp.m != nil && 0 <= val(round.temp.m) && 0 <= val(round.temp.ri)
+//@   requires [one-slot-per-committee-member] len(round.ok) == len(round.Parameters.parties.partyIDs) && len(round.temp.signRound2Messages) == len(round.Parameters.parties.partyIDs) && len(round.temp.signRound3Messages) == len(round.Parameters.parties.partyIDs) && len(round.temp.cjs) == len(round.Parameters.parties.partyIDs)
+//@   requires [own-index] 0 <= round.Parameters.partyID.Index && round.Parameters.partyID.Index < len(round.Parameters.parties.partyIDs)
+//@   requires [round-2-complete] forall j in 0..len(round.temp.signRound2Messages) :: (j != round.Parameters.partyID.Index ==> r2slotEd(round.temp.signRound2Messages[j]))
+//@   requires [decommitment-size-validated] forall j in 0..len(round.temp.signRound2Messages) :: (j != round.Parameters.partyID.Index ==> len(cast(msgcontent(round.temp.signRound2Messages[j]), "*eddsa/signing.SignRound2Message").DeCommitment) <= 8192)
+//@   requires [group-key-wellformed] round.key.EDDSAPub != nil && wfPoint(round.key.EDDSAPub)
+//@   requires [requested-length-fits-the-message] round.temp.fullBytesLen == 0 || (0 < round.temp.fullBytesLen && round.temp.fullBytesLen <= 1048576 && blen(be(val(round.temp.m))) <= round.temp.fullBytesLen)
+//@   requires [session-id-size] len(round.temp.ssid) <= 4096
+//@   modifies *
+//@   loop 0 invariant round.started && riBytes != nil && fresh(riBytes)
